@@ -47,6 +47,12 @@ def content(kind, k):
         return "v = %d # \udcff\udcfe\n" % k
     if kind == "E":
         return ""
+    if kind == "Un":     # already tidy, last line without a newline: the output is the input, byte for byte
+        return "import os\nprint(os)\nv = %d" % k
+    if kind == "Cn":     # rewritten, last line without a newline
+        return "import sys, os\nprint(os, sys)\nv = %d" % k
+    if kind == "Uc":     # already tidy, ends in a comment without newline
+        return "import os\nprint(os)\n# end %d" % k
     raise ValueError(kind)
 
 
@@ -258,7 +264,7 @@ def gen_tree(rng, tool, nfiles=None):
     """Returns (tree, args)."""
     tree, args = {}, []
     n = nfiles or rng.choice([1, 2, 2, 3, 3, 4, 5])
-    kinds_file = ["C", "C", "C", "U", "U", "X", "X"] + (["T", "T"] if tool == "transform-imports" else ["T"]) + ["B", "E"]
+    kinds_file = ["C", "C", "C", "U", "U", "X", "X"] + (["T", "T"] if tool == "transform-imports" else ["T"]) + ["B", "E", "Un", "Un", "Cn", "Uc"]
     mark = [0]
 
     def newc(kind=None):
@@ -277,7 +283,7 @@ def gen_tree(rng, tool, nfiles=None):
             if rng.random() < 0.25 and any(v[0] == "file" and "/" not in k for k, v in tree.items()):
                 tn = rng.choice(sorted(k for k, v in tree.items() if v[0] == "file" and "/" not in k))
             else:
-                tree[tn] = ["file", newc(rng.choice(["C", "C", "U", "X", "T"]))]
+                tree[tn] = ["file", newc(rng.choice(["C", "C", "U", "X", "T", "Un", "Cn"]))]
             ln = "l%d.py" % i
             tree[ln] = ["link", tn]
             if rng.random() < 0.15:   # chain
